@@ -394,6 +394,33 @@ def check(run, repo, world):
                    "a value inside 0..65535 is refused: the raise is reached "
                    "when %s" % pred.show(frozenset(bad)), where(mod, n))
 
+    # ---- the values the caller gave are the values that are sent ----------
+    # the byte-lane / selector rules above speak about the parameters by
+    # name: a parameter re-bound on the way (a "forgiving" unit conversion, a
+    # selector translated from another enumeration) is another value
+    run.rule("R-DT8-PARAM", "the value / selector parameters of the three "
+             "sequences are never re-bound")
+    n_par = 0
+    for fname, pnames in (("SetDT8ColourValueTc", ("tc_mired",)),
+                          ("SetDT8TcLimit", ("tc_mired", "what_limit")),
+                          ("QueryDT8ColourValue", ("query",))):
+        m_, f_, _ = world.func(MOD + "." + fname)
+        have = [a.arg for a in f_.args.args + f_.args.kwonlyargs]
+        for pn in pnames:
+            if pn not in have:
+                raise AnalysisError("%s lost parameter %s" % (fname, pn))
+            n_par += 1
+            st = [n for n in _walk_no_nested(f_) if isinstance(
+                n, ast.Name) and n.id == pn and isinstance(
+                    n.ctx, (ast.Store, ast.Del))]
+            run.ob("R-DT8-PARAM", "%s.%s#%s" % (MOD, fname, pn), not st,
+                   "%s re-binds its parameter `%s`: what is loaded into the "
+                   "DTRs is then not the value (selector) the caller asked "
+                   "for - values the statement says are sent as given, or "
+                   "rejected, are silently replaced" % (fname, pn),
+                   where(mod, st[0]) if st else where(mod, f_))
+    run.floor("value / selector parameters", n_par, 4)
+
     # ---- selector enumerations vs IEC 62386-209 ---------------------------
     import json
     import os
